@@ -80,7 +80,7 @@ def publication_routines(ctx):
     records."""
     master = ctx.index.get_class(K.MASTER, 'Master')
     out = []
-    for func in master.methods.values():
+    for func in master.live_methods():
         _g, ops = record_ops(ctx, func)
         kinds = set(op for _n, op, _r, _c in ops)
         if 'delete' in kinds and ('put' in kinds or 'update' in kinds):
